@@ -127,6 +127,10 @@ func genPkgGraphs(r *vh.Rand, n int) []pkgGraph {
 		{[][][]int{{{1}}, {{2}}, {{9}}}},                     // unknown package two levels down
 		{[][][]int{{{1}, {2}}, {{}}, {{1}}}},                 // two files with different imports
 		{[][][]int{{{1}}, {{2}}, {{3}}, {{1}}}},              // cycle not through the root
+		{[][][]int{{{9}, {9}}}},                              // two files import the unknown package: located in the first
+		{[][][]int{{{}, {1}, {1}}, {{0}}}},                   // two files import a package that closes a cycle
+		{[][][]int{{{1}}, {{9, 9}, {9}}}},                    // unknown package two levels down, named twice and in two files
+		{[][][]int{{{0, 9}}}},                                // own package first, then the unknown one
 	}
 	for len(out) < n {
 		np := r.Range(1, 4)
@@ -152,7 +156,58 @@ func genPkgGraphs(r *vh.Rand, n int) []pkgGraph {
 	return out
 }
 
+// pinned package-level inputs judged by the direct oracle only (every error leaf positioned inside a source file):
+// the loader / package-scope error classes repaired by /repo fixes 3f76693, a7259e7, 5b3591a, 466a7f9, kept in a
+// deterministic corpus so that a regression of any of them is caught without relying on the mutation draw
+var pkgPinned = []struct {
+	Class string
+	Files map[string]string
+}{
+	{"import of a package with no files", map[string]string{
+		"p0/v1/a.j5s": "package p0.v1\n\nimport nope.v1:nope\n\nobject Foo {\n  field a object:nope.Thing\n}\n"}},
+	{"import of a package with no files, full package reference", map[string]string{
+		"p0/v1/a.j5s": "package p0.v1\n\nimport nope.v1\n\nobject Foo {\n  field a object:nope.v1.Thing\n}\n"}},
+	{"package import cycle", map[string]string{
+		"p0/v1/a.j5s":  "package p0.v1\n\nimport baz.v1:baz\n\nobject Foo {\n  field a object:baz.Baz\n}\n",
+		"baz/v1/b.j5s": "package baz.v1\n\nimport p0.v1:p0\n\nobject Baz {\n  field a object:p0.Foo\n}\n"}},
+	{"package line does not match the directory", map[string]string{
+		"p0/v1/a.j5s": "package p0.v1v1\n\nobject Foo {\n  field bar object:Bar\n}\n\nobject Bar {\n  field x string\n}\n"}},
+	{"one object in two files of a package", map[string]string{
+		"p0/v1/a.j5s": "package p0.v1\n\nobject Foo {\n  field a string\n}\n",
+		"p0/v1/b.j5s": "package p0.v1\n\nobject Foo {\n  field b string\n}\n"}},
+	{"object and enum of one name in two files of a package", map[string]string{
+		"p0/v1/a.j5s": "package p0.v1\n\nobject Foo {\n  field a string\n}\n",
+		"p0/v1/b.j5s": "package p0.v1\n\nenum Foo {\n  option A\n}\n"}},
+	{"duplicate field in a dependency package", map[string]string{
+		"p0/v1/a.j5s":  "package p0.v1\n\nimport baz.v1:baz\n\nobject Foo {\n  field a object:baz.Baz\n}\n",
+		"baz/v1/b.j5s": "package baz.v1\n\nobject Baz {\n  field a string\n  field a string\n}\n"}},
+	{"oneof with a map option", map[string]string{
+		"p0/v1/a.j5s": "package p0.v1\n\noneof Ch {\n  option a map:string\n  option b string\n}\n"}},
+	{"nested oneof with a map option", map[string]string{
+		"p0/v1/a.j5s": "package p0.v1\n\nobject Foo {\n  field ch oneof {\n    option a map:string\n  }\n}\n"}},
+}
+
+func runPkgPinned(res *vh.Result, caseNo *int) {
+	for _, pc := range pkgPinned {
+		in := map[string]any{"class": pc.Class, "files": pc.Files, "package": "p0.v1"}
+		c := compileOnce(pc.Files, "p0.v1")
+		res.Count("pkgpinned")
+		switch {
+		case c.TimedOut:
+			res.Fail(vh.Failure{Case: *caseNo, Stream: "pkgpinned", Sig: "C07 package loading: hang", Clause: "never hangs", Input: in, Got: "timeout"})
+		case c.Panic != nil:
+			res.Fail(vh.Failure{Case: *caseNo, Stream: "pkgpinned", Sig: "C07 package loading: panic " + errClass(fmt.Sprint(c.Panic)), Clause: "never panics", Input: in, Got: fmt.Sprint(c.Panic)})
+		case c.Err == nil:
+			res.Fail(vh.Failure{Case: *caseNo, Stream: "pkgpinned", Sig: "C07 package error class accepted: " + pc.Class, Clause: "descriptors or errors (harness expectation: this bundle is not a valid package)", Input: in, Got: "compiled"})
+		default:
+			checkPositions(res, *caseNo, "pkgpinned", "package error class "+pc.Class, cmpb.Positions(c.Err), pc.Files, "", in)
+		}
+		*caseNo++
+	}
+}
+
 func runPkgLoad(cfg *vh.Config, res *vh.Result, caseNo *int) (terms []string, recs []vh.CaseRec) {
+	runPkgPinned(res, caseNo)
 	r := cfg.R.Fork("pkgload")
 	gs := genPkgGraphs(r, cfg.Scale(40, 400))
 	type obsT struct {
